@@ -229,5 +229,15 @@ def run(ctx):
         c04.rule_successor(ctx, M, prefix="C11")
     except Unrecognised as e:
         ctx.unrecognised(e.rule, e.msg, e.fn, e.line)
+    # following a player reordering needs blocking between players to be symmetric: every hole card is tested against and
+    # recorded in one common used-card set (C02's rule)
+    try:
+        from rules import c02
+        from sa.report import PrefixCtx
+        M2 = evalmodel.get(F)
+        pl2 = M2.plumbing()
+        c02.rule_used_set(PrefixCtx(ctx, "C02", "C11"), M2, M2.deal, P.Prov(M2.deal), pl2["turn_from"][1], pl2["river_from"][1])
+    except Unrecognised as e:
+        ctx.unrecognised("C11.R-used-set", e.msg, e.fn, e.line)
     ctx.assume("the deck / odometer order only permutes the multiset of deals (C02 decides necessary conditions of the enumeration, not this)")
     ctx.assume("relabelling suits maps ranges to ranges (HandRange is keyed by normalised pairs, C14)")
